@@ -66,6 +66,7 @@ var (
 	maxBodyUnits = flag.Int("maxbody", 3, "MaxBody of the specification (a frame with that many body units fills the buffer)")
 	bufFlag      = flag.Uint("buf", 0, "force this receive buffer size (0 = seeded choice)")
 	hangs        int32
+	listenerMode = flag.Bool("listener", false, "cases are UacpListener behaviours (several connections of one uacp.Listener)")
 )
 
 const hdr = 8
@@ -73,6 +74,28 @@ const hdr = 8
 func main() {
 	vfgo.Init()
 	defer vfgo.Flush()
+	if *listenerMode {
+		lcases := vfgo.Cases[lbeh]()
+		ch := make(chan int)
+		var wg sync.WaitGroup
+		for w := 0; w < *workers; w++ {
+			wg.Add(1)
+			go func() {
+				defer wg.Done()
+				for i := range ch {
+					c := lcases[i]
+					c.Idx = i
+					runListenerCase(c)
+				}
+			}()
+		}
+		for i := range lcases {
+			ch <- i
+		}
+		close(ch)
+		wg.Wait()
+		return
+	}
 	cases := vfgo.Cases[beh]()
 	ch := make(chan int)
 	var wg sync.WaitGroup
